@@ -557,7 +557,7 @@ fn shape_family(cfg: &Cfg, rep: &mut Report, model: &mut Model, vars: &Vars) {
   let reqs: Vec<String> = rows.iter().map(|(_, _, c)| c.request.clone()).collect();
   let answers = model.ask_batch(&reqs);
   // per text: the implementation's answer in the first shape that parsed it
-  let mut first: std::collections::BTreeMap<usize, (usize, String)> = Default::default();
+  let mut first: std::collections::BTreeMap<usize, (usize, String, String)> = Default::default();
   for ((ti, si, c), both) in rows.iter().zip(answers.iter()) {
     let ans = match Sexp::parse(both).as_ref().and_then(|x| x.as_list()) {
       Some([m, ..]) => m.to_string(),
@@ -576,12 +576,16 @@ fn shape_family(cfg: &Cfg, rep: &mut Report, model: &mut Model, vars: &Vars) {
     }
     match first.get(ti) {
       None => {
-        first.insert(*ti, (*si, c.implementation.clone()));
+        first.insert(*ti, (*si, c.implementation.clone(), c.ast.clone()));
       }
-      Some((s0, v0)) => {
+      Some((s0, v0, ast0)) => {
         if *v0 != c.implementation {
           let qn = Sexp::parse(&c.request).map(|x| has_multi_segment_qualified_name(&x)).unwrap_or(false);
-          let sig = if qn && label.starts_with("shadowed") {
+          let sig = if *ast0 != c.ast {
+            // the two scopes do not even give the same syntax tree: the lexer decides where a name ends by the keys
+            // it finds anywhere in the scope (Scope::flatten_keys), shadowed and nested ones included
+            "the syntax tree of a text differs between two scopes with the same visible bindings (the lexer ends a name at a key found anywhere in the scope, shadowed entries included)"
+          } else if qn && label.starts_with("shadowed") {
             "a qualified name (interval endpoint a.b) sees a shadowed binding of its first segment: the value depends on the shape of the scope"
           } else {
             "the value of an expression differs between two scopes with the same visible bindings"
@@ -600,6 +604,230 @@ fn shape_family(cfg: &Cfg, rep: &mut Report, model: &mut Model, vars: &Vars) {
   }
   rep.extra.insert("shape_texts".into(), json!(texts.len()));
   rep.extra.insert("shape_scopes".into(), json!(shapes.iter().map(|(l, c)| format!("{}:{}", l, c.len())).collect::<Vec<String>>()));
+}
+
+/// A literal value written out by hand (the expectations of family `feelsem`): `null`, `true`,
+/// `false`, integers, `"text"`, `[v, …]`, `{key: v, …}`. Built directly as a `Value` — neither the
+/// parser nor the evaluator of the implementation takes part.
+fn lit_value(text: &str) -> Option<Value> {
+  fn ws(cs: &[char], i: &mut usize) {
+    while *i < cs.len() && cs[*i] == ' ' {
+      *i += 1;
+    }
+  }
+  fn go(cs: &[char], i: &mut usize) -> Option<Value> {
+    ws(cs, i);
+    let c = *cs.get(*i)?;
+    if c == '[' {
+      *i += 1;
+      let mut xs = vec![];
+      loop {
+        ws(cs, i);
+        if *cs.get(*i)? == ']' {
+          *i += 1;
+          break;
+        }
+        xs.push(go(cs, i)?);
+        ws(cs, i);
+        match *cs.get(*i)? {
+          ',' => *i += 1,
+          ']' => {}
+          _ => return None,
+        }
+      }
+      return Some(Value::List(dmntk_feel::values::Values::new(xs)));
+    }
+    if c == '{' {
+      *i += 1;
+      let mut ctx = FeelContext::default();
+      loop {
+        ws(cs, i);
+        if *cs.get(*i)? == '}' {
+          *i += 1;
+          break;
+        }
+        let mut k = String::new();
+        while *cs.get(*i)? != ':' {
+          k.push(cs[*i]);
+          *i += 1;
+        }
+        *i += 1;
+        let v = go(cs, i)?;
+        ctx.set_entry(&Name::from(k.trim()), v);
+        ws(cs, i);
+        match *cs.get(*i)? {
+          ',' => *i += 1,
+          '}' => {}
+          _ => return None,
+        }
+      }
+      return Some(Value::Context(ctx));
+    }
+    if c == '"' {
+      *i += 1;
+      let mut t = String::new();
+      while *cs.get(*i)? != '"' {
+        t.push(cs[*i]);
+        *i += 1;
+      }
+      *i += 1;
+      return Some(Value::String(t));
+    }
+    let mut w = String::new();
+    while *i < cs.len() && (cs[*i].is_ascii_alphanumeric() || cs[*i] == '-') {
+      w.push(cs[*i]);
+      *i += 1;
+    }
+    match w.as_str() {
+      "null" => Some(Value::Null(None)),
+      "true" => Some(Value::Boolean(true)),
+      "false" => Some(Value::Boolean(false)),
+      _ => w.parse::<i64>().ok().map(|n| Value::Number(n.into())),
+    }
+  }
+  let cs: Vec<char> = text.chars().collect();
+  let mut i = 0;
+  let v = go(&cs, &mut i)?;
+  ws(&cs, &mut i);
+  if i == cs.len() {
+    Some(v)
+  } else {
+    None
+  }
+}
+
+/// (item of the signature, expression text, the value DMN 1.3 FEEL semantics assigns — written out by hand)
+pub fn feelsem_table() -> Vec<(&'static str, &'static str, &'static str)> {
+  const ARITY: &str = "an invocation with surplus positional or unknown named arguments is null";
+  const CLOSURE: &str = "a function value is a lexical closure (its free names are those of its definition)";
+  const DEPDOM: &str = "a later iteration domain may refer to an earlier iteration variable";
+  const QUANT: &str = "some/every are the ternary disjunction/conjunction of the body values (a null body can make the result null)";
+  const FORNULL: &str = "for over a null domain is null";
+  const SCALARF: &str = "a filter on a non-list operand treats it as a one-item list (item is bound)";
+  const PATHL: &str = "a path over a list of contexts maps over all items (null for a missing entry)";
+  const DUPKEY: &str = "a context with a duplicate key is null";
+  const INNULL: &str = "in over a list with a null item is the disjunction over the items";
+  const INLIST: &str = "a list in a list of lists is equality with some item";
+  const IFCOND: &str = "if with a null condition takes the else branch";
+  vec![
+    // a. DMN 1.3 10.3.2.13.2/3: the arguments are matched with the formal parameters; a mismatch is null
+    (ARITY, "(function(a) a)(1, 2)", "null"),
+    (ARITY, "(function(a) a)(a: 1, zz: 2)", "null"),
+    (ARITY, "(function(a, b) a + b)(1, 2, 3)", "null"),
+    (ARITY, "(function() 1)(2)", "null"),
+    (ARITY, "(function(a, b) a - b)(b: 1, a: 5, c: 0)", "null"),
+    (ARITY, "{f: function(a) a, r: f(1, 2)}.r", "null"),
+    (ARITY, "(function(a) a)(1)", "1"),
+    (ARITY, "(function(a, b) a - b)(b: 1, a: 5)", "4"),
+    (ARITY, "(function(a) a)()", "null"),
+    (ARITY, "(function(a, b) a)(a: 1)", "null"),
+    // b. DMN 1.3 10.3.2.13.1: a function definition closes over the scope of its definition
+    (CLOSURE, "{x: 1, f: function() x, r: {x: 2, y: f()}.y}.r", "1"),
+    (CLOSURE, "{mk: function(x) function(y) x + y, add1: mk(1), r: add1(2)}.r", "3"),
+    (CLOSURE, "{x: 1, f: function() x, g: function(x) f(), r: g(2)}.r", "1"),
+    (CLOSURE, "{k: function(x) function() x, c: k(7), r: c()}.r", "7"),
+    // c. DMN 1.3 Table 62 (for / some / every): each domain is evaluated in the scope extended with the earlier variables
+    (DEPDOM, "for x in [[1,2],[3]], y in x return y", "[1, 2, 3]"),
+    (DEPDOM, "some x in [1,2], y in [x] satisfies y = 2", "true"),
+    (DEPDOM, "every x in [1,2], y in [x] satisfies y = x", "true"),
+    (DEPDOM, "for x in 1..2, y in 1..x return y", "[1, 1, 2]"),
+    (DEPDOM, "for x in [1,2], y in [x, 10] return y", "[1, 10, 2, 10]"),
+    // d. DMN 1.3 Table 62: some = false or b1 or b2 …, every = true and b1 and b2 … (Table 50 ternary logic)
+    (QUANT, "every x in [1, null] satisfies x > 0", "null"),
+    (QUANT, "some x in [1, null] satisfies x > 5", "null"),
+    (QUANT, "every x in [1, null, -1] satisfies x > 0", "false"),
+    (QUANT, "some x in [null, 9] satisfies x > 5", "true"),
+    (QUANT, "every x in [null] satisfies x", "null"),
+    (QUANT, "some x in [\"a\", false] satisfies x", "null"),
+    (QUANT, "every x in [1, 2] satisfies x > 0", "true"),
+    (QUANT, "some x in [1, 2] satisfies x > 5", "false"),
+    (QUANT, "every x in [1, 2], y in [null, 3] satisfies x < y", "null"),
+    // e. a null domain is not a list (null is no value of type list): the result is null
+    (FORNULL, "for x in null return x", "null"),
+    (FORNULL, "for x in null, y in [1] return y", "null"),
+    (FORNULL, "for x in [1], y in null return x", "null"),
+    (FORNULL, "for x in [null] return x", "[null]"),
+    (FORNULL, "for x in 5 return x + 1", "[6]"),
+    // f. DMN 1.3 10.3.2.5: "if e1 is not a list, it is converted to a singleton list [e1]"
+    (SCALARF, "5[item > 3]", "[5]"),
+    (SCALARF, "5[item > 7]", "[]"),
+    (SCALARF, "5[true]", "[5]"),
+    (SCALARF, "\"a\"[item = \"a\"]", "[\"a\"]"),
+    (SCALARF, "{a: 1}[a = 1]", "[{a: 1}]"),
+    (SCALARF, "{a: 1}[item.a = 2]", "[]"),
+    (SCALARF, "true[item]", "[true]"),
+    // g. DMN 1.3 10.3.2.6 / Table 62 path: e.name over a list of contexts is the list of the items' values of name
+    (PATHL, "[{a:1},{b:2}].a", "[1, null]"),
+    (PATHL, "[{a:1},{a:2}].a", "[1, 2]"),
+    (PATHL, "[{b:1},{b:2}].a", "[null, null]"),
+    (PATHL, "[{a:1},{b:2},{a:3}].a", "[1, null, 3]"),
+    (PATHL, "([{a:{c:1}},{a:{d:2}}].a).c", "[1, null]"),
+    // h. DMN 1.3 10.3.1.2 (grammar rule 59 note): the keys of a context must be distinct
+    (DUPKEY, "{a:1, a:2}", "null"),
+    (DUPKEY, "{a: 1, b: 2, a: 3}", "null"),
+    (DUPKEY, "{\"a\": 1, a: 2}", "null"),
+    (DUPKEY, "{a: 1, b: {a: 2}}", "{a: 1, b: {a: 2}}"),
+    (DUPKEY, "[{a: 1}, {a: 2}]", "[{a: 1}, {a: 2}]"),
+    // i. DMN 1.3 Table 55: e in [e1, e2, …] = e in e1 or e in e2 or …; e in e1 = (e = e1) for a value e1
+    (INNULL, "1 in [null, 1]", "true"),
+    (INNULL, "10 in (null, 10)", "true"),
+    (INNULL, "10 in (10, null)", "true"),
+    (INNULL, "1 in [null, 2]", "false"),
+    (INNULL, "null in [1, null]", "true"),
+    (INNULL, "\"a\" in [null, null, \"a\"]", "true"),
+    // j. the same table with list values e, e1: equality with some item
+    (INLIST, "[1,2] in [[1,2,3]]", "false"),
+    (INLIST, "[2,1] in [[1,2]]", "false"),
+    (INLIST, "[1,2] in [[3],[1,2]]", "true"),
+    (INLIST, "[1,2] in [[1,2]]", "true"),
+    (INLIST, "[] in [[1]]", "false"),
+    (INLIST, "[1,2,3] in [[1,2,3,4], [1,2,3]]", "true"),
+    // k. DMN 1.3 Table 62: if e1 then e2 else e3 = e2 if e1 is true, e3 if it is false or null. A condition that
+    // is not Boolean (`if 1 then 2 else 3`) is left out: the table says "e1 is not true -> e3", the reference
+    // implementations answer null with a type error — debatable, not judged here.
+    (IFCOND, "if null then 2 else 3", "3"),
+    (IFCOND, "if false then 2 else 3", "3"),
+    (IFCOND, "if true then 2 else 3", "2"),
+    (IFCOND, "if 1 > null then 2 else 3", "3"),
+  ]
+}
+
+/// Family `feelsem`: a table of expression texts with the value DMN 1.3 assigns, written out by
+/// hand; evaluated in an empty scope by the implementation (and by the model of the code).
+fn feelsem_family(rep: &mut Report, model: &mut Model) {
+  let ctxs = vec![FeelContext::default()];
+  let mut rows = vec![];
+  for (item, text, expected) in feelsem_table() {
+    let want = match lit_value(expected).as_ref().and_then(value_sexp) {
+      Some(s) => format!("(ok {} same)", s),
+      None => {
+        rep.disagree(Kind::ImplVsModel, "feelsem", "driver-error", text, "-", &format!("unreadable expectation {}", expected));
+        continue;
+      }
+    };
+    match run_case(text, &ctxs, 8) {
+      Some(c) => rows.push((item, c, want)),
+      None => rep.disagree(Kind::ImplVsSpec, "feelsem", &format!("C01 FEEL semantics: {} (rejected by the parser)", item), text, "parse error", &want),
+    }
+  }
+  let reqs: Vec<String> = rows.iter().map(|(_, c, _)| c.request.clone()).collect();
+  let answers = model.ask_batch(&reqs);
+  for ((item, c, want), both) in rows.iter().zip(answers.iter()) {
+    let ans = match Sexp::parse(both).as_ref().and_then(|x| x.as_list()) {
+      Some([m, ..]) => m.to_string(),
+      _ => both.clone(),
+    };
+    rep.case(&c.request, true);
+    rep.hit("feelsem");
+    if ans != "(unsupported)" && c.implementation != ans {
+      let sig = if ans.starts_with("(error") { "driver-error" } else { "evaluation differs from model (feelsem table)" };
+      rep.disagree(Kind::ImplVsModel, "feelsem", sig, &c.text, &c.implementation, &ans);
+    }
+    if &c.implementation != want {
+      rep.disagree(Kind::ImplVsSpec, "feelsem", &format!("C01 FEEL semantics: {}", item), &c.text, &c.implementation, want);
+    }
+  }
+  rep.extra.insert("feelsem_cases".into(), json!(rows.len()));
 }
 
 fn ast_kind(n: &AstNode) -> String {
@@ -638,6 +866,7 @@ pub fn scope_sexp(ctxs: &[FeelContext]) -> Option<String> {
 pub struct Case {
   pub text: String,
   pub request: String,
+  pub ast: String,
   pub implementation: String,
   pub nontrivial: bool,
   pub pairs: Vec<(String, String)>,
@@ -676,6 +905,7 @@ pub fn run_case(text: &str, ctxs: &[FeelContext], fuel: u32) -> Option<Case> {
   Some(Case {
     text: text.to_string(),
     request: format!("(c01 eval {} {} {})", fuel, ast, scope_sexp(ctxs)?),
+    ast: ast.to_string(),
     implementation,
     nontrivial: max_depth >= 3,
     pairs,
@@ -903,6 +1133,7 @@ pub fn run_with(cfg: &Cfg, property: &str) -> Report {
   }
   if property == "C01" {
     shape_family(cfg, &mut rep, &mut model, &vars);
+    feelsem_family(&mut rep, &mut model);
   }
   rep.extra.insert("unparsable_generated".into(), json!(unparsable));
   rep.extra.insert("skipped_unsupported".into(), json!(skipped));
